@@ -31,6 +31,7 @@ type hop struct {
 	closed bool // ... and it was ErrClosed
 	key    string
 	obs    map[string]uint32 // key -> value id (0 = absent)
+	has    map[string]bool   // key -> presence, for reads that return no value (Has)
 	full   bool              // obs covers the whole key universe
 	done   bool
 	tx     bool
@@ -257,6 +258,25 @@ func (r *runner) clientConc(ci int, ops []Op) {
 		case "get":
 			h := r.begin(ci, "get")
 			h.key = string(op.Key)
+			if (i+ci)%4 == 3 {
+				// Has: the same read, answering presence only
+				simrt.SetOp("has")
+				ok, err := db.Has(append([]byte(nil), op.Key...), nil)
+				simrt.SetOp("")
+				switch {
+				case err == nil:
+					h.has = map[string]bool{h.key: ok}
+				case err == leveldb.ErrClosed:
+					h.failed = true
+				default:
+					h.failed = true
+					if !r.faulty {
+						r.viol("get", "get:error", fmt.Sprintf("client %d: Has returned %v", ci, err))
+					}
+				}
+				r.end(h)
+				continue
+			}
 			simrt.SetOp("get")
 			v, err := db.Get(append([]byte(nil), op.Key...), nil)
 			simrt.SetOp("")
@@ -623,6 +643,11 @@ var linModel = porcupine.Model{
 					return false, st
 				}
 			}
+			for k, present := range h.has {
+				if (m[k] != 0) != present {
+					return false, st
+				}
+			}
 			if h.full {
 				for k, v := range m {
 					if v != 0 {
@@ -709,7 +734,7 @@ func (r *runner) checkLin() {
 		ops = append(ops, porcupine.Operation{ClientId: h.client, Input: linIn{h}, Call: h.call, Return: h.ret})
 	}
 	for _, h := range cs.hist {
-		if h.kind == "write" || h.failed || h.obs == nil {
+		if h.kind == "write" || h.failed || h.obs == nil && h.has == nil {
 			continue
 		}
 		ret := h.ret
